@@ -11,6 +11,9 @@ Two differentials against the Lean models (`OnlVerif/Tcp/Sink.lean`, `OnlVerif/T
   the public state compared bit for bit after each; oracle: the run ends without exception, `sender.last_ack`
   equals the flow size, `sink.recv_buffer == [[0, size]]`, and on a loss-free path on which every ACK arrives before
   its segment's timer expires every segment is sent exactly once.
+* overtaken-ACK leg (same replay, same oracles): closed loops whose RETURN path delays every ACK on its own, so that a later
+  cumulative ACK overtakes an earlier one (held ACKs, jitter, application-limited flows - the latter oracle-only); direct oracle:
+  the sender's acknowledged mark `last_ack` never decreases (`loop-lastack-decreased`; in the sndk leg `sndk-lastack-decreased`).
 """
 import collections, copy, itertools, json, random
 
